@@ -29,7 +29,7 @@ PROPS = {
                  'T8 backends behind the VFS are arbitrary (uninterpreted results) and are reached only through capability-guarded calls'],
     ),
     'C07': dict(
-        vx_units=['vfs'], kx=[],
+        vx_units=['vfs'], kx=[], rx=['vfs'],
         design_ref='DESIGN.md section 5, C07',
         not_covered=[
             'mount / over-mount / umount / index allocation histories (Vfs::mount*, insert_mount_locked, umount, allocate_fs_idx): ArcSwap stores and atomics on &self; routing is proved for an ARBITRARY table state satisfying Vfs::wf()',
@@ -40,7 +40,7 @@ PROPS = {
                  'T8 table invariant Vfs::wf()/mount_wf(): 256 slots, mountpoint inode numbers fit in 56 bits, mount indices are non-zero, root_entry is stored converted - established by insert_mount_locked/allocate_fs_idx, which are not covered'],
     ),
     'C14': dict(
-        vx_units=['vfs'], kx=[],
+        vx_units=['vfs'], kx=[], rx=['vfs'],
         design_ref='DESIGN.md section 5, C14',
         not_covered=[
             'slot hygiene across mount / over-mount / umount histories (mount_with_id_mapping, insert_mount_locked, umount store through ArcSwap on &self): the clause "regardless of which mounts previously occupied its slot" is NOT decided (DESIGN.md section 7, D6)',
@@ -49,7 +49,7 @@ PROPS = {
         trusted=['T3 as for C07', 'T8 every configured mapping satisfies internal+range <= 2^32 and external+range <= 2^32 (map_ok; Vfs::new never validates it - DESIGN.md section 7, O2)'],
     ),
     'C01': dict(
-        vx_units=['server'], kx=[],
+        vx_units=['server'], kx=[], rx=['server', 'readdir'],
         design_ref='DESIGN.md section 5, C01',
         not_covered=[
             'memory safety of the unsafe blocks below the transport seam (get_message_body::set_len, Reader::read_obj, FuseDevWriter raw Vecs, virtio copy_nonoverlapping) and descriptor-chain construction',
@@ -62,7 +62,7 @@ PROPS = {
                  'T8 filesystems are arbitrary but return positive errnos and, for read, the count they appended to the writer'],
     ),
     'C02': dict(
-        vx_units=['server', 'arcfs'], kx=[],
+        vx_units=['server', 'arcfs'], kx=[], rx=['server'],
         design_ref='DESIGN.md section 5, C02',
         not_covered=[
             'SETXATTR (handler body assumed: iter().position); the handlers listed as body=assumed in functions_under_contract',
@@ -74,7 +74,7 @@ PROPS = {
                  'contract-only helpers: bytes_to_cstr, ServerUtil::extract_two_cstrs (iter().position), ServerUtil::get_message_body (unsafe set_len)'],
     ),
     'C03': dict(
-        vx_units=['server'], kx=[],
+        vx_units=['server'], kx=[], rx=['server', 'readdir'],
         design_ref='DESIGN.md section 5, C03',
         not_covered=[
             'the memory image of each wire struct (sbytes is an uninterpreted function of the struct value): that is C13, decided by KX',
@@ -83,7 +83,7 @@ PROPS = {
         trusted=['T3 as C01', 'T4 as C01'],
     ),
     'C16': dict(
-        vx_units=['server'], kx=[],
+        vx_units=['server'], kx=[], rx=['readdir'],
         design_ref='DESIGN.md section 5, C16',
         not_covered=[
             'exactly-once reassembly across chunks and resumption offsets: Server::do_readdir (closure capturing &mut cursor), PseudoFs::do_readdir, passthrough do_readdir (getdents64, lseek, cookie cache) and the VFS wrappers are NOT verified; only the reply-assembly step add_dirent is',
@@ -93,7 +93,7 @@ PROPS = {
         trusted=['T3 as C01', 'T4 abstract Writer (a split cursor only buffers)'],
     ),
     'C12': dict(
-        vx_units=['server', 'vfs'], kx=[],
+        vx_units=['server', 'vfs'], kx=[], rx=['init'],
         design_ref='DESIGN.md section 5, C12',
         not_covered=[
             'Vfs::destroy and backends mounted AFTER init (Vfs::mount_with_id_mapping initialises them; mount path not covered)',
